@@ -66,6 +66,10 @@ def r1(ctx: Ctx) -> None:
                     ctx.unrec(f, l.node, "every component contributes", "the pass branches on the component's own recorded state (the price getter was folded in with a case distinction): not modelled", bp.describe()[:100])
                     refused = True
                     continue
+                if bp.conds and bp.exit[0] == "fall" and all(strip_ver(c)[0] == "call" and key(strip_ver(c)[1]) == "isinstance" and strip_ver(c)[2] and strip_ver(c)[2][0] == el for c, _, _ in bp.conds):
+                    ctx.unrec(f, l.node, "every component contributes", "the pass distinguishes components by their class: what a component of another class contributes is not stated by the rule", bp.describe()[:100])
+                    refused = True
+                    continue
                 ctx.check(not bp.conds and bp.exit[0] == "fall", f, l.node, "every component contributes", "no condition inside the loop", bp.describe()[:100])
                 for name, ph in l.phi.items():
                     v = bp.env.get(name)
@@ -108,6 +112,15 @@ def r2(ctx: Ctx) -> None:
             ok = r[0] == "call" and key(r[1]) == f"self.{leaf}" and (dict(r[3]).get("time") == ("sym", "time") or (r[2] and r[2][0] == ("sym", "time"))) and not p.conds
             if ok and leaf == "_extract_data_by_time":
                 ok = key(r[2][1]) == "self._fundamental_prices"
+            if not ok and leaf == "_extract_data_by_time" and p.conds:
+                # the getter it delegates to (Market.get_fundamental_price) decides something before it reads: what it may answer then is C06.R4's business;
+                # here: on the paths that do read the series, the time asked for is the one given
+                if r[0] == "call" and key(r[1]) == f"self.{leaf}":
+                    okp = (dict(r[3]).get("time") == ("sym", "time") or (r[2] and r[2][0] == ("sym", "time"))) and key(r[2][1]) == "self._fundamental_prices"
+                    ctx.check(bool(okp), f, f.node, f"{q} passes its time argument through", f"self.{leaf}(time=time)", short(r))
+                else:
+                    ctx.unrec(f, f.node, f"{q} passes its time argument through", "the fundamental-price getter answers from somewhere else than the recorded series on this path (judged by C06.R4)", short(r))
+                continue
             ctx.check(ok, f, f.node, f"{q} passes its time argument through", f"self.{leaf}(time=time)", short(r))
 
 
